@@ -1,9 +1,15 @@
 package ws
 
 import (
+	"runtime"
 	"testing"
 
 	"verif/internal/vt"
 )
 
-func TestMain(m *testing.M) { vt.Main(m) }
+func TestMain(m *testing.M) {
+	// The websocket stream recycles frames through a sync.Pool, which keeps per-P caches: with one P a released frame
+	// is the next one acquired, so pooled-frame reuse is a deterministic function of the generated history.
+	runtime.GOMAXPROCS(1)
+	vt.Main(m)
+}
